@@ -890,6 +890,108 @@ class LaneScoreboard:
         return msg
 
 
+class SideInst(LanePathInst):
+    """A converter data channel together with its side-band ports (resp/id/user/dest), see
+    lean/LitexModel/Axi/WidthConvSide.lean.  Letters/outputs are those of LanePathInst with the four side-band values
+    inserted: up  : letter (valid, lane, first, last, ready, resp, id, user, dest)
+                    outputs [sink.ready, source.valid, first, last, resp, id, user, dest, lane0..]
+              down: letter (valid, first, last, ready, resp, id, user, dest, lane0..)
+                    outputs [sink.ready, source.valid, lane, first, last, resp, id, user, dest]
+    (resp is not a port of the W channel: driven/read as 0)."""
+    SB = ("resp", "id", "user", "dest")
+
+    def __init__(self, name, conv, channel, dw_from, dw_to, lane_values=None, aw=32, via="direct", sb_values=None):
+        LanePathInst.__init__(self, name, conv, channel, dw_from, dw_to, lane_values, aw, via)
+        self.conv = conv
+        self.sb_sigs_in = [getattr(self.sink, k) if (k != "resp" or channel == "r") else None for k in self.SB]
+        self.sb_sigs_out = [getattr(self.source, k) if (k != "resp" or channel == "r") else None for k in self.SB]
+        self.sb_w = [len(x) if x is not None else 0 for x in self.sb_sigs_in]
+        if self.direction == "up":
+            self.lean_open = ("sidereg %d" if conv == "down" else "sidecombup %d") % self.ratio
+            self.qual = [None, None, 1, 1, 1, 1, 1, 1] + [1] * self.ratio
+        else:
+            self.lean_open = "sidecombdown %d" % self.ratio
+            self.qual = [None, None, 1, 1, 1, 1, 1, 1, 1]
+        # mode A alphabet: the side-band takes two values differing in every field that exists
+        self.sb_values = sb_values or [tuple(0 for _ in self.sb_w), tuple((1 << w) - 1 if w else 0 for w in self.sb_w)]
+        base = self.alphabet
+        if self.direction == "up":
+            self.alphabet = [l + sb for l in base for sb in self.sb_values]
+        else:
+            self.alphabet = [l[:4] + sb + l[4:] for l in base for sb in self.sb_values]
+
+    def _sb_of(self, letter):
+        return letter[5:9] if self.direction == "up" else letter[4:8]
+
+    def apply(self, letter):
+        n = self.netlist
+        sb = self._sb_of(letter)
+        for sig, v in zip(self.sb_sigs_in, sb):
+            if sig is not None:
+                n.set(sig, v)
+        LanePathInst.apply(self, letter[:5] if self.direction == "up" else letter[:4] + letter[8:])
+
+    def sample(self):
+        n = self.netlist
+        o = LanePathInst.sample(self)
+        sb = [n.getu(sig) if sig is not None else 0 for sig in self.sb_sigs_out]
+        if self.direction == "up":
+            return o[:4] + sb + o[4:]
+        return o + sb
+
+    def gen(self, rng, t):
+        l = LanePathInst.gen(self, rng, t)
+        # side-band values change slowly on some stretches (bursts with one id) and every cycle on others
+        if (t // 48) % 2 == 0 and getattr(self, "_sbprev", None) is not None and rng.random() < 0.8:
+            sb = self._sbprev
+        else:
+            sb = tuple(rng.getrandbits(w) if w else 0 for w in self.sb_w)
+        self._sbprev = sb
+        return (l + sb) if self.direction == "up" else (l[:4] + sb + l[4:])
+
+    def monitor(self):
+        return SideScoreboard(self)
+
+
+class SideScoreboard:
+    """Data-path scoreboard (LaneScoreboard) plus the side-band rules that do not depend on the model:
+    combinational paths of a wide->narrow converter: every offered narrow beat carries the side-band of the wide beat
+    on the sink; registered path (AXIDownConverter R): a wide beat handed over in the FIRST cycle it is offered
+    carries the side-band of the narrow beat that completed it (the cycle before)."""
+
+    def __init__(self, inst):
+        self.inst = inst
+        self.lane = LaneScoreboard(inst.direction, inst.ratio)
+        self.prev_close = None      # side-band of the closing narrow beat accepted in the previous cycle
+        self.prev_valid = False
+        self.count = 0
+
+    def observe(self, letter, outs):
+        inst = self.inst
+        if inst.direction == "up":
+            m = self.lane.observe(letter[:5], outs[:4] + outs[8:])
+            v, d, f, l, r = letter[:5]
+            sb_in = list(letter[5:9])
+            sready, ovalid = outs[0], outs[1]
+            sb_out = list(outs[4:8])
+            if m is None and inst.conv == "down" and ovalid and not self.prev_valid and self.prev_close is not None \
+                    and sb_out != self.prev_close:
+                m = "wide beat offered with resp/id/user/dest %r, the narrow beat that completed it carried %r" % (
+                    sb_out, self.prev_close)
+            self.prev_valid = bool(ovalid and not r)
+            self.prev_close = None
+            if v and sready:
+                self.count += 1
+                if l or self.count == inst.ratio:
+                    self.prev_close = sb_in
+                    self.count = 0
+            return m
+        m = self.lane.observe(letter[:4] + letter[8:], outs[:5])
+        if m is None and outs[1] and list(outs[5:9]) != list(letter[4:8]):
+            m = "narrow beat offered with resp/id/user/dest %r, the wide beat carries %r" % (list(outs[5:9]), list(letter[4:8]))
+        return m
+
+
 # ---------------------------------------------------------------------------------------------------------
 # End-to-end byte oracle across a real converter (address channel + data channel together; model independent)
 
@@ -988,6 +1090,7 @@ class ConvE2E:
                 idle += 1
                 if idle > 12:
                     break
+        self._last = ("write", req, list(wbeats), got_aw, [(d, st) for (d, st, _) in got_w])
         if got_aw is None:
             return "write burst %r: AW never forwarded" % (req,)
         want = self.bytes_of_beats(req, wbeats, self.dw_from, True)
@@ -1046,6 +1149,8 @@ class ConvE2E:
                 idle += 1
                 if idle > 12:
                     break
+        self._last = ("read", req, [(d, (1 << (self.dw_from // 8)) - 1) for (d, _) in ms_beats], got_ar,
+                      [(d, (1 << (self.dw_to // 8)) - 1) for (d, _) in sl_beats])
         if got_ar is None:
             return "read burst %r: AR never forwarded" % (req,)
         if len(ms_beats) != ln + 1:
@@ -1058,6 +1163,49 @@ class ConvE2E:
             if want.get(b) != v:
                 return "read burst %r forwarded as AR%r: byte 0x%x read as 0x%02x, slave returned %s" % (
                     req, got_ar, b, v, "0x%02x" % want[b] if b in want else "nothing for it")
+        return None
+
+    @staticmethod
+    def _lanes(beats, dw):
+        """flat lane codes (2*byte + strobe) of a list of (data, strb) beats on a dw-bit bus"""
+        out = []
+        for (d, st) in beats:
+            for i in range(dw // 8):
+                out.append(2 * ((d >> (8 * i)) & 0xff) + ((st >> i) & 1))
+        return out
+
+    def lean_tie(self, lean):
+        """The burst just run against the Lean byte-level model (LitexModel/Axi/WidthConvMem.lean):
+        burstWrites on both sides vs the Python byte oracle, and upWords/downWords (the transaction-level data path the
+        end-to-end theorems are about) vs the beats the real converter produced.  Returns a disagreement dict or None."""
+        what, req, fbeats, got_ax, tbeats = self._last
+        nbf, nbt = self.dw_from // 8, self.dw_to // 8
+        fl, tl = self._lanes(fbeats, self.dw_from), self._lanes(tbeats, self.dw_to)
+        ratio = max(nbf, nbt) // min(nbf, nbt)
+        lines = ["writes %d %d %d %d %d %s" % ((nbf,) + tuple(req) + (" ".join(map(str, fl)),)),
+                 "writes %d %d %d %d %d %s" % ((nbt,) + tuple(got_ax) + (" ".join(map(str, tl)),))]
+        exp = [self.bytes_of_beats(req, fbeats, self.dw_from, True), self.bytes_of_beats(got_ax, tbeats, self.dw_to, True)]
+        # data path: write = from -> to, read = to -> from
+        src, dst, nsrc, ndst = (fl, tl, nbf, nbt) if what == "write" else (tl, fl, nbt, nbf)
+        if nsrc < ndst:
+            lines.append("upwords %d %d %s" % (ratio, nsrc, " ".join(map(str, src))))
+        else:
+            lines.append("downwords %d %d %s" % (ndst, ratio, " ".join(map(str, src))))
+        ans = lean.call_batch(lines)
+        for k in (0, 1):
+            got = [int(x) for x in ans[k].split()]
+            want = [x for pair in exp[k] for x in pair]
+            if got != want:
+                return {"instance": self.name, "kind": "e2e-model", "what": "burstWrites (Lean) vs byte oracle (Python), side %d" % k,
+                        "request": list(req if k == 0 else got_ax), "lean": got[:40], "python": want[:40]}
+        words, toks, i = [], [int(x) for x in ans[2].split()], 0
+        while i < len(toks):
+            words += toks[i + 1:i + 1 + toks[i]]
+            i += 1 + toks[i]
+        if words != dst:
+            k = next((j for j in range(min(len(words), len(dst))) if words[j] != dst[j]), min(len(words), len(dst)))
+            return {"instance": self.name, "kind": "e2e-model", "what": "%s data path: upWords/downWords (Lean) vs the beats of the real converter" % what,
+                    "request": list(req), "first_difference_lane": k, "lean_lanes": len(words), "impl_lanes": len(dst)}
         return None
 
     def run_history(self, history):
@@ -1076,7 +1224,7 @@ class ConvE2E:
             self.fresh = True
         return None
 
-    def run(self, cov, seed, tier):
+    def run(self, cov, seed, tier, lean=None):
         import random
         rng = random.Random(seed * 977 + self.dw_from + 3 * self.dw_to)
         nb = 16 if tier == "quick" else 160
@@ -1104,6 +1252,13 @@ class ConvE2E:
                 else:
                     m = self.run_read(req, sd)
                 history.append(h)
+                if not m and lean is not None:
+                    d = self.lean_tie(lean)
+                    cov.count("end-to-end bursts compared with the Lean byte-level model")
+                    if d:
+                        d.update(h)
+                        dis.append(d)
+                        break
                 if m:
                     # prefer the burst alone from reset as the witness; else the whole back-to-back sequence
                     alone = self.run_history([h])
@@ -1192,7 +1347,7 @@ def _run_job(idx, job, cov, lean, seed, tier, budget):
         elif job.mode == "C":
             return idx, cov.__dict__, conv_run(inst, lean, cov, seed, tier)
         elif job.mode == "E":
-            return idx, cov.__dict__, inst.run(cov, seed, tier)
+            return idx, cov.__dict__, inst.run(cov, seed, tier, lean)
         else:
             rng = random.Random(seed * 7919 + idx)
             dis = cosim(inst, lean, cov, rng, **job.kw)
